@@ -294,6 +294,15 @@ impl<'b> LuaDocParser<'_, 'b> {
         self.lua_parser.errors.push(error);
     }
 
+    /// see `LuaParser::enter_level`: doc types nest inside the code they annotate
+    pub(crate) fn enter_level(&mut self) -> bool {
+        self.lua_parser.enter_level()
+    }
+
+    pub(crate) fn leave_level(&mut self) {
+        self.lua_parser.leave_level()
+    }
+
     pub fn set_parser_state(&mut self, state: LuaDocParserState) {
         self.state = state;
     }
